@@ -34,7 +34,7 @@ TIE_FOR = {
     'C07': ['TieClasses', 'TieReducers', 'TieMath', 'TieFormulas', 'TieOrch', 'TieRules'],
     'C08': ['TieReducers', 'TieRules', 'TieNorm'],
     'C09': ['TieCache', 'TieBound'], 'C10': ['TieWrites'], 'C11': ['TieReducers', 'TieBound', 'TieRules'],
-    'C12': ['TieClasses'], 'C13': ['TiePublic'], 'C14': ['TieSets'], 'C15': ['TieOperators'],
+    'C12': ['TieClasses', 'TieObj'], 'C13': ['TiePublic', 'TieObj'], 'C14': ['TieSets'], 'C15': ['TieOperators'],
     'C16': ['TieClasses'], 'C17': ['TieClasses', 'TieMath'], 'C18': ['TieSets'],
 }
 
